@@ -4,6 +4,7 @@ import itertools
 import g1
 
 PROPERTY = 'C03'
+THOROUGH_EXTRA = 150
 LEASE = 3600
 
 
@@ -110,7 +111,7 @@ def subharnesses(tier):
 
 
 def budget(tier, name):
-    return 400.0 if tier == 'quick' else 1500.0
+    return 400.0 if tier == 'quick' else 600.0
 
 
 def harness(S, spec):
